@@ -16,8 +16,8 @@ META = {
     "bound": {"quick": "T quick list x {default,fast}; I1 depth-1 (2,2),(2,4),(4,2) x default; S quick x default; B trees <= 2 ops",
               "thorough": "same families from the thorough lists, both profiles"},
     "assumptions": ["measured strings use the documented convention: right-most character is the first listed qubit",
-                    "expected value = value denoted by the function's own expressions (boolev) decoded by the reference decoder, so that "
-                    "C01 defects are not reported here",
+                    "expected value = value denoted by the function's own expressions (boolev) decoded by the reference decoder; those expressions are "
+                    "additionally compared with the Python value of the source on every determined row (pyref), so f(v) is the source's f",
                     "bitsim is the meaning of the circuit"],
     "explanation": "states = compiled programs; transitions = argument value tuples pushed through encode -> circuit -> decode.",
 }
@@ -100,6 +100,18 @@ def run_case(case):
                 if oq[i] == oq[j] and i < len(retbits) and j < len(retbits) and env[retbits[i]] != env[retbits[j]]:
                     bad.append({"why": "two return bits with different values share an output qubit", "bits": [retbits[i], retbits[j]]})
     nrows = 0
+    if not bad:
+        # f(v) itself: the value CPython computes for the source, wherever it is determined (rows whose intermediates overflow are not judged)
+        try:
+            want, care, und = pr.table(None)
+            for i, b in enumerate(retbits):
+                d = (env[b] ^ want[i]) & care[i]
+                if d:
+                    bad.append({"why": "the value the circuit is built for is not f(v): return bit differs from the Python value", "bit": b,
+                                "wrong_rows": sim.popcount(d), "first_rows": sim.rows_of(d, rows)})
+                    break
+        except pyref.Unsupported:
+            pass
     if not bad:
         cols, _, _ = H.circuit_columns(qf)
         for r in range(rows):
